@@ -131,6 +131,13 @@ def attach(rec) -> None:
             r.count("M-name.adds-in-pass")
             name = getattr(val, "name", None)
             prior = module.namespace.get(name, None)
+            snap = _state.get("designer", {}).get(id(module))
+            if prior is None and snap is not None and snap[0] is module and name in snap[1] and snap[1][name] is not val:
+                # the name was the designer's, for an array / pair / bundle that has been dissolved meanwhile
+                r.violation(f"name-capture:{_state['pass']}",
+                            f"[{_state['label']}] pass {_state['pass']} gives a new {type(val).__name__} in module {module.name} the name '{name}', "
+                            f"which the designer gave a {type(snap[1][name]).__name__} (dissolved into its elements by now)",
+                            case=_state.get("case"), name_kind=type(snap[1][name]).__name__, new_kind=type(val).__name__)
             if prior is not None and prior is not val:
                 r.violation(f"name-capture:{_state['pass']}",
                             f"[{_state['label']}] pass {_state['pass']} binds the name '{name}' in module {module.name} to a new "
@@ -142,8 +149,30 @@ def attach(rec) -> None:
 
     orig_top = helab.Elaborator.elaborate
 
+    def snapshot(tops):
+        """Designer names of every module reachable from `tops` (first sight only; the module is kept alive with its entry)."""
+        d = _state.setdefault("designer", {})
+        todo = list(tops) if isinstance(tops, (list, tuple)) else [tops]
+        while todo:
+            m = todo.pop()
+            if not isinstance(m, hmod.Module) or (id(m) in d and d[id(m)][0] is m):
+                continue
+            if getattr(m, "_elaboration_started", False):
+                continue
+            d[id(m)] = (m, dict(object.__getattribute__(m, "namespace")))
+            for coll in ("instances", "instarrays", "instbundles"):
+                for i in object.__getattribute__(m, coll).values():
+                    todo.append(getattr(i, "of", None))
+        if len(d) > 20000:
+            d.clear()
+
     def top_elaborate(self, top):
         r = _state["rec"]
+        if r is not None and _state["depth"] == 0:
+            try:
+                snapshot(top)
+            except Exception:
+                pass
         try:
             return orig_top(self, top)
         finally:
